@@ -574,6 +574,20 @@ func (se *specEnv) call(x *ast.CallExpr) tv {
 		r := se.withState(se.pre, func() tv { return se.eval(x.Args[0]) })
 		se.overrides = saveOv
 		return r
+	case "at_entry":
+		// at_entry(e): value of e when the enclosing loop was entered (loop invariants only)
+		if !argn(1) {
+			return tv{term: "false", typ: boolT}
+		}
+		info, ok := se.v.loopEntry[se.block]
+		if !ok {
+			return se.fail("at_entry used outside a loop invariant")
+		}
+		saveOv := se.overrides
+		se.overrides = info.env
+		r := se.withState(info.st, func() tv { return se.eval(x.Args[0]) })
+		se.overrides = saveOv
+		return r
 	case "imp":
 		if !argn(2) {
 			return tv{term: "false", typ: boolT}
